@@ -234,6 +234,8 @@ def names_in(x):
 
 def spec_labels(spec):
     lb = []
+    if 'levels' not in spec:
+        lb.append('levels:default')
     n = len(spec.get('levels', [0, 1, 0])) - 1
     t = spec.get('times', 'default')
     if t == 'default':
